@@ -661,6 +661,9 @@ func replayObligation(e *Engine, o *Obligation, outDir, work string) (string, bo
 		os.WriteFile(rp, []byte(b.String()), 0o644)
 		return rp, ok
 	}
+	if o.Detail != "" {
+		b.WriteString("\n" + o.Detail + "\n")
+	}
 	x := o.x
 	if x == nil || x.root == nil {
 		return finish("no execution context", false)
